@@ -191,6 +191,7 @@ class Signal(object):
         """Resets the dynamically calculated properties."""
         self._cached_smooth_fa = False
         self._cached_fa = False
+        self.__dict__.pop("swtf", None)  # Stockwell transform memoised by eqsig.stockwell
 
     def generate_smooth_fa_spectrum(self, band=40):
         self.gen_smooth_fa_spectrum(band=band)
@@ -472,6 +473,7 @@ class AccSignal(Signal):
         self._cached_fa = False
         self._cached_response_spectra = False
         self._cached_disp_and_velo = False
+        self.__dict__.pop("swtf", None)  # Stockwell transform memoised by eqsig.stockwell
         self.reset_all_motion_stats()
 
     def gen_response_spectrum(self, response_times=None, xi=-1, min_dt_ratio=4):
